@@ -28,7 +28,19 @@ class C16(Prop):
                   "(known finding D18, with a Lean counterexample theorem). Model compared with the real parsers on "
                   "every run")
     level_note = "Lean kernel + standard axioms; hand-written model; correspondence is differential testing"
-    theorems = []
+    theorems = [
+        "PrefVerif.C16.ord_normal_form",
+        "PrefVerif.C16.cat_normal_form",
+        "PrefVerif.C16.ord_merge",
+        "PrefVerif.C16.merged_spec",
+        "PrefVerif.C16.freshSuffix_fresh",
+        "PrefVerif.C16.names_distinct",
+        "PrefVerif.C16.first_occurrence_partial",
+        "PrefVerif.C16.first_occurrence_counterexample",
+        "PrefVerif.C16.assignName_clean",
+        "PrefVerif.C16.ballotLine_clean",
+        "PrefVerif.C16.clean_identity_ord",
+    ]
     rule = ("generated ordinal / categorical contents: 0-4 repeated ballot lines, header counts drawn independently "
             "of the body, names from a pool built to collide (A, A, A__1, A__2, A__1__1, ...), category names "
             "likewise; plus clean contents parsed with both flag values; non-trivial = a repeated ballot or name")
